@@ -47,3 +47,11 @@ impl<'a> Select<'a> {
         ready[choose(ready.len())]
     }
 }
+
+// --- conformance helpers ---------------------------------------------------------------------
+impl<'a> Select<'a> {
+    /// indices that `ready()` may return right now (empty = it would block)
+    pub fn stub_ready_set(&self) -> Vec<usize> {
+        self.ids.iter().enumerate().filter(|(_, id)| with_obj(**id, |o| matches!(o, Obj::Chan { len, senders, .. } if *len > 0 || *senders == 0)).unwrap_or(false)).map(|(i, _)| i).collect()
+    }
+}
